@@ -161,6 +161,15 @@ func run(c *runner.Ctx, idx int) {
 		}
 		f := prog.RandomTables(c.Rand, prog.TableOptions{Entries: entries, PayloadBudget: budget, SmallN: smallN, ZeroSizes: true})
 		s.b, s.name, s.kind = f.Bytes, f.DescriptionLabel, "generated"
+		extra := "none"
+		if c.Rand.Chance(1, 5) {
+			// an extra empty mdat box after everything else (the library allows
+			// extra empty mdat boxes; offsets are unaffected)
+			s.b = append(append([]byte(nil), s.b...), 0, 0, 0, 8, 'm', 'd', 'a', 't')
+			s.name += " +trailing-empty-mdat"
+			extra = "trailing-empty-mdat"
+		}
+		c.Seen("extra_mdat", extra)
 		c.Seen("generated_layout", fmt.Sprintf("mdatFirst=%v large=%v", f.MdatFirst, f.LargeMdat))
 	}
 	if c.Rand.Chance(1, 3) {
